@@ -59,15 +59,15 @@ Definition gen_hmac_ok : Prop :=
   sha1_hex_lowercase = true.
 
 Lemma Gen_sha1_ok : gen_sha1_ok.
-Proof. unfold gen_sha1_ok. repeat split; vm_compute; reflexivity. Qed.
+Proof. unfold gen_sha1_ok. repeat match goal with |- _ /\ _ => split end; vm_compute; reflexivity. Qed.
 Lemma Gen_sha256_ok : gen_sha256_ok.
-Proof. unfold gen_sha256_ok. repeat split; vm_compute; reflexivity. Qed.
+Proof. unfold gen_sha256_ok. repeat match goal with |- _ /\ _ => split end; vm_compute; reflexivity. Qed.
 Lemma Gen_sha512_ok : gen_sha512_ok.
-Proof. unfold gen_sha512_ok. repeat split; vm_compute; reflexivity. Qed.
+Proof. unfold gen_sha512_ok. repeat match goal with |- _ /\ _ => split end; vm_compute; reflexivity. Qed.
 Lemma Gen_md5_ok : gen_md5_ok.
-Proof. unfold gen_md5_ok. repeat split; vm_compute; reflexivity. Qed.
+Proof. unfold gen_md5_ok. repeat match goal with |- _ /\ _ => split end; vm_compute; reflexivity. Qed.
 Lemma Gen_hmac_ok : gen_hmac_ok.
-Proof. unfold gen_hmac_ok. repeat split; vm_compute; reflexivity. Qed.
+Proof. unfold gen_hmac_ok. repeat match goal with |- _ /\ _ => split end; vm_compute; reflexivity. Qed.
 
 Lemma Gen_hash_ok : gen_sha1_ok /\ gen_sha256_ok /\ gen_sha512_ok /\ gen_md5_ok /\ gen_hmac_ok.
 Proof. exact (conj Gen_sha1_ok (conj Gen_sha256_ok (conj Gen_sha512_ok (conj Gen_md5_ok Gen_hmac_ok)))). Qed.
@@ -80,4 +80,4 @@ Lemma spec_sha2_tables_from_primes :
   sha256_H0 = map (frac_root 2 32) (firstn 8 first_primes) /\
   sha512_Kspec = map (frac_root 3 64) first_primes /\
   sha512_H0 = map (frac_root 2 64) (firstn 8 first_primes).
-Proof. repeat split; vm_compute; reflexivity. Qed.
+Proof. repeat match goal with |- _ /\ _ => split end; vm_compute; reflexivity. Qed.
